@@ -372,6 +372,32 @@ def rule_d11(ctx):
     ctx.check(ok, "D11-push-in-arguments", c, "new quantifier = forall var in in_var with mexpr", site(last), f"found {src(last)[:70]}", "ForallFormula(var, in_var, formula, bind_expression=mexpr)")
 
 
+def rule_d12(ctx):
+    """nth_occ (used to resolve `<type>[n]` of XPath segments to a position in an expansion): position of the n-th occurrence counted in ONE scan of the sequence."""
+    H = "src/isla/helpers.py"
+    f = ctx.repo.func(H, "nth_occ", "C08.D12")
+    c = f"{H}:nth_occ"
+    t = " ".join(src(f).split())
+    scan = "for idx, elem in enumerate(haystack): if elem == needle: if num_occs == n: return idx num_occs += 1" in t and t.rstrip().endswith("return None")
+    if scan:
+        ctx.ok("D12-nth-occurrence", c, "single scan counting matches", site(f), "returns the index at which the n-th match is seen")
+        return
+    rec = [x for x in ast.walk(f) if isinstance(x, ast.Call) and call_name(x) == "nth_occ"]
+    if rec:
+        # recursion on a suffix: the result has to be re-based by the suffix offset, not by a constant
+        sl = [a for a in rec[0].args if isinstance(a, ast.Subscript) and isinstance(a.slice, ast.Slice) and a.slice.lower is not None]
+        rets = [r for r in ast.walk(f) if isinstance(r, ast.Return) and r.value is not None and "rest" in src(r.value)]
+        if sl and rets:
+            off = src(sl[0].slice.lower)
+            names = {n_.id for n_ in ast.walk(sl[0].slice.lower) if isinstance(n_, ast.Name)}
+            rebased = any(names & {n_.id for n_ in ast.walk(r.value) if isinstance(n_, ast.Name)} for r in rets)
+            ctx.check(rebased, "D12-nth-occurrence", c, f"recursive result re-based by the suffix offset `{off}`", site(rets[-1]),
+                      f"nth_occ recurses on `haystack[{off}:]` but adds a constant to the sub-result instead of the offset `{off}`: the index of the second and later occurrences is too small "
+                      "(`<pair>.<item>[2]` addresses the wrong child whenever the first <item> is not the first symbol of the expansion)", "offset added back")
+            return
+    raise Unrecognised("C08.D12", c, "nth_occ is not the recognised single scan")
+
+
 def rule_d10(ctx):
     """Universal closure with push-in: a sub-formula that does not mention the new variable may be left OUTSIDE the new quantifier only if the combinator is a
     disjunction.  `forall x: (A(x) and B)` is vacuously true over a tree without any x, `(forall x: A(x)) and B` is just B."""
@@ -402,6 +428,10 @@ def rule_d10(ctx):
 def run(ctx) -> str:
     ctx.guarded("D10", lambda: rule_d10(ctx))
     ctx.guarded("D11", lambda: rule_d11(ctx))
+    ctx.guarded("D12", lambda: rule_d12(ctx))
+    from . import c09
+
+    ctx.guarded("D13", lambda: c09.rule_n13(ctx))
     ctx.guarded("D8", lambda: rule_d8(ctx))
     ctx.guarded("D9", lambda: rule_d9(ctx))
     ctx.guarded("D7", lambda: rule_d7(ctx))
